@@ -2,10 +2,11 @@
 # A value is (sum_S c_S * prod_{g in S} g) / d  with c_S, d generator-free z3 Real terms (polynomials in the symbolic
 # inputs and in the free symbols standing for transcendental calls); generators g are square roots of generator-free
 # terms P_g (g*g == P_g, g >= 0).  Optional tangent dict: variable name -> RV (forward-mode AD through the executed IR).
-import z3
+import z3, struct
 from fractions import Fraction
 
 ZERO = z3.RealVal(0); ONE = z3.RealVal(1)
+USE_SYMPY = True
 E = frozenset()
 
 class State:
@@ -16,10 +17,12 @@ class State:
         self.trans_by_key = {}
         self.denoms = []      # z3 terms assumed non-zero (every executed symbolic division)
         self.denom_keys = set()
-        self.axioms = [z3.And(z3.Real('pi!') > z3.RatVal(31415926, 10000000), z3.Real('pi!') < z3.RatVal(31415927, 10000000))]
+        self.axioms = []
+        self.context = None   # callable returning the current path constraints (used for sign tests of factors)
         self.unify_queries = 0
         self.floor_n = 0
         self.floors = {}
+        self.floor_const = {}
 ST = State()
 def reset():
     global ST
@@ -180,6 +183,127 @@ def div(a, b, _t=True):
         r.tan = _tan2(a, b, lambda x, y: sub(mul(x, ib, False), mul(mul(an, y, False), ib2, False), False))
     return r
 
+# ---- polynomial canonicalisation of square-root arguments (sympy): sqrt(c * prod f_i^m_i) -> sqrt(c') * prod f_i^(m_i//2) * prod sqrt(f_i)
+_sym_cache = {}
+SYMPY_BUDGET_S = 8
+class _Timeout(BaseException): pass
+class _time_limit:
+    """wall-time limit for a block, nested inside an outer SIGALRM timer (which is restored afterwards)"""
+    def __init__(self, sec): self.sec = sec
+    def __enter__(self):
+        import signal, time
+        self.ok = False
+        try:
+            self.old_handler = signal.getsignal(signal.SIGALRM); self.old_left = signal.getitimer(signal.ITIMER_REAL)[0]; self.t0 = time.time()
+            def h(sig, frm): raise _Timeout()
+            signal.signal(signal.SIGALRM, h); signal.setitimer(signal.ITIMER_REAL, self.sec); self.ok = True
+        except ValueError: pass
+        return self
+    def __exit__(self, et, ev, tb):
+        import signal, time
+        if self.ok:
+            signal.setitimer(signal.ITIMER_REAL, 0); signal.signal(signal.SIGALRM, self.old_handler)
+            if self.old_left > 0: signal.setitimer(signal.ITIMER_REAL, max(0.05, self.old_left - (time.time() - self.t0)))
+        return False
+def _z3_to_sympy(t, syms):
+    import sympy
+    memo = {}
+    def go(e):
+        k = e.get_id()
+        if k in memo: return memo[k]
+        if z3.is_rational_value(e): r_ = sympy.Rational(e.numerator_as_long(), e.denominator_as_long())
+        elif z3.is_int_value(e): r_ = sympy.Integer(e.as_long())
+        elif z3.is_const(e) and e.decl().kind() == z3.Z3_OP_UNINTERPRETED:
+            nm = e.decl().name(); s_ = sympy.Symbol(nm); syms[nm] = e; r_ = s_
+        else:
+            kd = e.decl().kind(); ch = [go(c) for c in e.children()]
+            if kd == z3.Z3_OP_ADD: r_ = sympy.Add(*ch)
+            elif kd == z3.Z3_OP_MUL: r_ = sympy.Mul(*ch)
+            elif kd == z3.Z3_OP_SUB: r_ = ch[0] - sympy.Add(*ch[1:])
+            elif kd == z3.Z3_OP_UMINUS: r_ = -ch[0]
+            elif kd == z3.Z3_OP_TO_REAL: r_ = ch[0]
+            elif kd == z3.Z3_OP_POWER and ch[1].is_Integer and ch[1] >= 0: r_ = ch[0] ** ch[1]
+            elif kd == z3.Z3_OP_DIV and ch[1].is_Rational and ch[1] != 0: r_ = ch[0] / ch[1]
+            else: raise ValueError('non-polynomial term')
+        memo[k] = r_; return r_
+    return go(t)
+def _sympy_to_z3(p, syms):
+    import sympy
+    def go(e):
+        if e.is_Rational: return z3.RatVal(int(e.p), int(e.q))
+        if e.is_Symbol:
+            v = syms[e.name]; return z3.ToReal(v) if z3.is_int(v) else v
+        if e.is_Add:
+            tot = None
+            for a_ in e.args: tot = go(a_) if tot is None else tot + go(a_)
+            return tot
+        if e.is_Mul:
+            tot = None
+            for a_ in e.args: tot = go(a_) if tot is None else tot * go(a_)
+            return tot
+        if e.is_Pow and e.exp.is_Integer and e.exp > 0:
+            b = go(e.base); tot = b
+            for _ in range(int(e.exp) - 1): tot = tot * b
+            return tot
+        raise ValueError('unexpected sympy node %r' % (e,))
+    return go(p)
+def _nonneg(t):
+    s_ = z3.Solver(); s_.set('timeout', 2000); s_.add(t < 0); ST.unify_queries += 1
+    if s_.check() == z3.unsat: return True
+    if ST.context is not None:
+        s_ = z3.Solver(); s_.set('timeout', 2000); s_.add(ST.context()); s_.add(t < 0); ST.unify_queries += 1
+        return s_.check() == z3.unsat
+    return False
+def _canon_sqrt(P):
+    """returns (outside z3 term >= 0, [radicand z3 terms]) with sqrt(P) == outside * prod sqrt(radicand_i), or None"""
+    key = P.get_id()
+    if key in _sym_cache: return _sym_cache[key]
+    res = None
+    try:
+        import sympy
+        syms = {}
+        sp = _z3_to_sympy(P, syms)
+        with _time_limit(SYMPY_BUDGET_S):
+          if len(syms) <= 24:
+              c, facs = sympy.factor_list(sympy.expand(sp))
+              c = sympy.Rational(c)
+              outside = sympy.Integer(1); inside_signed = []; inside_nonneg = []
+              # rational constant: pull out the square part
+              num, den = int(abs(c.p)), int(c.q)
+              import math
+              def sqpart(n):
+                  s_, rest, f = 1, n, 2
+                  while f * f <= rest and f < 2000:
+                      while rest % (f * f) == 0: rest //= f * f; s_ *= f
+                      f += 1
+                  r2 = math.isqrt(rest)
+                  if r2 * r2 == rest: return s_ * r2, 1
+                  return s_, rest
+              sn, rn = sqpart(num); sd, rd = sqpart(den)
+              outside = sympy.Rational(sn, sd)
+              cin = sympy.Rational(rn, rd) * (1 if c >= 0 else -1)
+              rad = []
+              for f, m in facs:
+                  fz = _sympy_to_z3(f, syms)
+                  if m >= 2:
+                      if (m // 2) % 2 == 0 or _nonneg(fz): outside = outside * f ** (m // 2)
+                      else: m = m  # sign unknown: keep everything inside
+                      if not ((m // 2) % 2 == 0 or _nonneg(fz)): rad.append((f, m)); continue
+                  if m % 2: rad.append((f, 1))
+              # split the radicand into separate generators only for factors that are provably non-negative
+              gens_ = []; rest = cin
+              for f, m in rad:
+                  fz = _sympy_to_z3(f, syms)
+                  if m == 1 and _nonneg(fz): gens_.append(fz)
+                  else: rest = rest * f ** m
+              if rest != 1: gens_.append(_sympy_to_z3(sympy.expand(rest), syms))
+              res = (_sympy_to_z3(sympy.expand(outside), syms) if outside != 1 else ONE, gens_)
+    except BaseException as ex:
+        if not isinstance(ex, (Exception, _Timeout)): raise
+        res = None
+    _sym_cache[key] = res
+    return res
+
 def _unify_sqrt(P):
     key = z3.simplify(P).sexpr()
     name = ST.gen_by_arg.get(key)
@@ -206,8 +330,18 @@ def sqrt(a):
         if fr >= 0:
             rn = math.isqrt(fr.numerator); rd = math.isqrt(fr.denominator)
             if rn * rn == fr.numerator and rd * rd == fr.denominator: return RV.const(Fraction(rn, rd))
-    name = _unify_sqrt(P)
-    r = RV({frozenset([name]): ONE}, a.d)
+    key0 = z3.simplify(P).sexpr()
+    r = None
+    if key0 not in ST.gen_by_arg and USE_SYMPY:
+        can = _canon_sqrt(P)
+        if can is not None and (len(can[1]) != 1 or not isone(can[0])):
+            outside, rads = can
+            names = frozenset(_unify_sqrt(q) for q in rads)
+            if len(names) == len(rads):
+                r = RV({names: outside}, a.d)
+    if r is None:
+        name = _unify_sqrt(P)
+        r = RV({frozenset([name]): ONE}, a.d)
     if a.tan is not None:
         i2 = inv(mul(RV.const(2), r.notan(), False), False)   # (sqrt u)' = u' / (2 sqrt u)
         r.tan = {k: mul(v, i2, False) for k, v in a.tan.items()}
@@ -235,11 +369,14 @@ def _trans(kind, args):
                         s_ = z3.Solver(); s_.set('timeout', 3000); s_.add(gen_constraints()); s_.add(ar2[0].expr() + u != 0); ST.unify_queries += 1
                         if s_.check() == z3.unsat: ST.axioms.append(v + v2 == PI)
             elif kind == 'sin' or kind == 'cos': ST.axioms.append(z3.And(v >= -1, v <= 1))
-            elif kind == 'atan2': ST.axioms.append(z3.And(v >= -PI, v <= PI))
+            elif kind == 'atan2': ST.axioms.append(z3.And(v > -PI, v < PI))     # branch cut excluded
             elif kind == 'log': ST.axioms.append(z3.Implies(u == 1, v == 0))
         ST.trans_by_key[key] = name
     return name, ST.trans[name][2]
-PI = z3.Real('pi!')
+# pi is identified with the double literal PI of colvarmodule.h (assumption stated in the evidence): every relation
+# between angles and the code's own PI constants is then linear
+_pf = Fraction(struct.unpack('<d', struct.pack('<Q', 0x400921FB54442D18))[0])
+PI = z3.RatVal(_pf.numerator, _pf.denominator)
 
 def _chain(r, a, f):
     """r.tan = f * a.tan"""
@@ -328,7 +465,17 @@ def powi(a, k):
     return r
 def powr(a, b):
     """a ** b with symbolic or non-integer exponent: free symbol with derivative rules"""
-    a = lift(a); b = lift(b); nm, v = _trans('pow', [a, b]); r = RV({E: v})
+    a = lift(a); b = lift(b); known = 'pow:' in ''.join(ST.trans_by_key) and None
+    n0 = len(ST.trans); nm, v = _trans('pow', [a, b]); r = RV({E: v})
+    if len(ST.trans) > n0 and b.is_const():
+        # algebraic axiom for a constant rational exponent r/s:  p^s == a^r  (p > 0 for a > 0)
+        fr = b.const_value()
+        if abs(fr.numerator) <= 12 and fr.denominator <= 12:
+            ae = a.expr(); ps = v
+            for _ in range(fr.denominator - 1): ps = ps * v
+            ar = ONE
+            for _ in range(abs(fr.numerator)): ar = ar * ae
+            ST.axioms.append(z3.Implies(ae > 0, z3.And(v > 0, (ps == ar) if fr.numerator >= 0 else (ps * ar == 1))))
     if a.tan is not None or b.tan is not None:
         an = a.notan(); bn = b.notan(); rn = r.notan()
         # d(a^b) = a^b * (b/a da + log(a) db)
@@ -366,3 +513,22 @@ def equal_queries(a, b):
     a = lift(a); b = lift(b)
     diff = _addn(a.n, {S: NEG(c) for S, c in b.n.items()}, b.d, a.d)
     return [c for c in diff.values() if not isz(c)]
+
+def to_float(v):
+    """numeric value of an RV whose coefficients and generator arguments are all constants (concrete runs)"""
+    import math
+    if not isinstance(v, RV): return float(v)
+    def num(t):
+        t = z3.simplify(t)
+        if z3.is_rational_value(t): return t.numerator_as_long() / t.denominator_as_long()
+        if z3.is_algebraic_value(t): return float(t.approx(20).as_decimal(17).rstrip('?'))
+        raise ValueError('not a constant')
+    gv = {}
+    tot = 0.0
+    for S, c in v.n.items():
+        term = num(c)
+        for g in S:
+            if g not in gv: gv[g] = math.sqrt(num(ST.gens[g][1]))
+            term *= gv[g]
+        tot += term
+    return tot / num(v.d)
